@@ -74,26 +74,55 @@ def buildable_features():
     return out
 
 
-def cargo_build(features, tag):
-    tdir = os.path.join(core.BUILD, "c18-target" + ("" if core.REPO == "/repo" else "-alt"))
+TF_CHAIN = ["sse2", "ssse3", "sse4.1", "avx2"]     # on x86-64 each implies the ones before it; sse2 is in the baseline
+
+
+def split_spec(spec):
+    """a build = cargo features plus at most one `tf:<target feature>` token (compiled with -C target-feature=+<it>)"""
+    feats = [x for x in spec if not x.startswith("tf:")]
+    tfs = [x[3:] for x in spec if x.startswith("tf:")]
+    level = max([TF_CHAIN.index(t) for t in tfs if t in TF_CHAIN] + [0])
+    return feats, level
+
+
+def cargo_build(spec, tag):
+    features, level = split_spec(spec)
+    tdir = os.path.join(core.BUILD, "c18-target" + ("" if core.REPO == "/repo" else "-alt") + ("-tf%d" % level if level else ""))
     cmd = ["cargo", "build", "--offline", "--manifest-path", os.path.join(core.REPO, "Cargo.toml"), "-p", "fast-tlsh", "--lib",
            "--no-default-features", "--target-dir", tdir]
     if features:
         cmd += ["--features", ",".join(features)]
+    rf = ("-C target-feature=+" + TF_CHAIN[level]) if level else ""
     with core.Lock("cargo-c18"):
-        rc, out = core.run(cmd, cwd=core.REPO, timeout=1800, env={"RUSTFLAGS": ""})
+        rc, out = core.run(cmd, cwd=core.REPO, timeout=1800, env={"RUSTFLAGS": rf})
     return rc, out
 
 
-HOST_ATOMS = {"target_arch=x86_64": True, "target_feature=sse2": True, "debug_assertions": True}
+def label_of(spec):
+    features, level = split_spec(spec)
+    return (("RUSTFLAGS='-C target-feature=+%s' " % TF_CHAIN[level]) if level else "") + "cargo build --no-default-features --lib" + \
+        ((" --features " + ",".join(features)) if features else "")
 
 
-def host_value(atom):
-    """value of a non-feature cfg atom in the BUILD runs (host target, guard off, dev profile); None = not ours to choose"""
+def spec_of_label(label):
+    spec = label.split("--features ", 1)[1].split(",") if "--features " in label else []
+    if "target-feature=+" in label:
+        spec.append("tf:" + label.split("target-feature=+", 1)[1].split("'", 1)[0])
+    return spec
+
+
+HOST_ATOMS = {"target_arch=x86_64": True, "debug_assertions": True}
+
+
+def host_value(atom, level=0):
+    """value of a non-feature cfg atom in a BUILD run (host target, guard off, dev profile, target-feature level); None = not
+    ours to choose"""
     if atom in HOST_ATOMS:
         return HOST_ATOMS[atom]
-    if atom.startswith("target_arch=") or atom.startswith("target_feature=") or atom in ("test", "doc", "miri", "fast_tlsh_verif",
-                                                                                        "fuzzing"):
+    if atom.startswith("target_feature="):
+        t = atom.split("=", 1)[1]
+        return t in TF_CHAIN and TF_CHAIN.index(t) <= level
+    if atom.startswith("target_arch=") or atom in ("test", "doc", "miri", "fast_tlsh_verif", "fuzzing"):
         return False
     return None
 
@@ -104,15 +133,16 @@ def closure_env(feats):
     return env
 
 
-def guard_holds(g, feats):
-    """does guard g hold in the build with exactly these features (unknown atoms: either value)"""
+def guard_holds(g, spec):
+    """does guard g hold in the build `spec` (unknown atoms: either value)"""
+    feats, level = split_spec(spec)
     env = closure_env(feats)
     free = []
     for v in ta.py_vars(g):
         if v.startswith("f:"):
             env.setdefault(v, False)
         else:
-            hv = host_value(v)
+            hv = host_value(v, level)
             if hv is None:
                 free.append(v)
             else:
@@ -125,31 +155,38 @@ def guard_holds(g, feats):
     return False
 
 
+def spec_for(g, allowed, extra_fixed=None):
+    """a smallest build spec (features within `allowed`, lowest target-feature level) in which guard g holds, or None"""
+    for level in range(len(TF_CHAIN)):
+        fx = {"f:std": False, "f:alloc": False}
+        fx.update(extra_fixed or {})
+        for v in ta.py_vars(g):
+            if v.startswith("f:") and v[2:] not in allowed:
+                fx[v] = False
+            elif not v.startswith("f:"):
+                hv = host_value(v, level)
+                if hv is not None:
+                    fx[v] = hv
+        env = brute(g, fx)
+        if env is not None:
+            need = sorted(x[2:] for x, val in env.items() if val and x.startswith("f:"))
+            return need + (["tf:" + TF_CHAIN[level]] if level else [])
+    return None
+
+
 def cfg_cover(allowed):
-    """feature sets (subsets of `allowed`, i.e. implying neither std nor alloc) such that every guard conjunction of the
-    source that CAN hold in such a build on this host holds in at least one of them: greedy set cover"""
+    """build specs (features implying neither std nor alloc, plus a target-feature level) such that every guard conjunction of
+    the source that CAN hold in such a build on this host holds in at least one of them: greedy set cover"""
     try:
         w, _ = ta.collect()
     except Exception:  # noqa: BLE001 -- reported elsewhere
         return [], 0, 0
     allowed = set(allowed)
-    fixed = {"f:std": False, "f:alloc": False}
     todo = []
     for g in w.guards.values():
-        vs = ta.py_vars(g)
-        fx = dict(fixed)
-        for v in vs:
-            if v.startswith("f:") and v[2:] not in allowed:
-                fx[v] = False
-            elif not v.startswith("f:"):
-                hv = host_value(v)
-                if hv is not None:
-                    fx[v] = hv
-        env = brute(g, fx)
-        if env is None:
-            continue
-        need = sorted(x[2:] for x, val in env.items() if val and x.startswith("f:"))
-        todo.append((g, need))
+        need = spec_for(g, allowed)
+        if need is not None:
+            todo.append((g, need))
     builds = [[], sorted(allowed)]
     builds_guards = {}
     covered = 0
@@ -195,7 +232,7 @@ def build_suite(ctx, extra_sets=()):
         rc, out = cargo_build(fs, "b")
         ctx.evaluations += 1
         st["cases"] += 1
-        label = "cargo build --no-default-features --lib" + (" --features " + ",".join(fs) if fs else "")
+        label = label_of(fs)
         ctx.nontrivial.add(("build", label))
         if len(st["feature_sets"]) < 8:
             st["feature_sets"].append(",".join(fs) or "(none)")
@@ -205,7 +242,8 @@ def build_suite(ctx, extra_sets=()):
             ctx.violations.append({"suite": "BUILD", "case": label, "config": "no-default-features",
                                    "impl": "build failed: " + " ;; ".join(errs[:6])[:1500],
                                    "model": "links (C18_nothing_needs_std_or_alloc_when_both_are_off / C18_every_configuration_links_what_it_names)",
-                                   "what": "the library does not build with std%s disabled" % ("" if "alloc" in fs else " and alloc")})
+                                   "what": "the library does not build with std%s disabled%s" % ("" if "alloc" in fs else " and alloc",
+                                                                                                  "" if not split_spec(fs)[1] else " when compiled for +" + TF_CHAIN[split_spec(fs)[1]])})
     if len(ctx.samples) < 24:
         ctx.samples.append({"suite": "BUILD", "case": "cargo build --no-default-features --lib", "impl": "rc=0" if not st["failures"] else "failed"})
 
@@ -244,6 +282,7 @@ def diagnose():
         return [], ["translator: %s" % e]
     doc_files = {"generate_easy_std.rs"}
     ok_std = {"std::arch::is_x86_feature_detected", "std::arch::is_arm_feature_detected", "std::sync::OnceLock",
+              "is_x86_feature_detected!", "is_arm_feature_detected!", "is_aarch64_feature_detected!",
               "std::error::Error", "std::io::Error"}
     bare = {"f:std": False, "f:alloc": False, "test": False, "doc": False}
     sets, notes = [], []
@@ -251,8 +290,13 @@ def diagnose():
         env = brute(p, bare)
         if env is not None:
             fs = sorted(x[2:] for x, v in env.items() if v and x.startswith("f:"))
-            notes.append("site %s `%s` in %s is compiled with std and alloc off (features: %s)" % (k, t, f, ",".join(fs) or "none"))
-            sets.append(fs)
+            other = sorted(x for x, v in env.items() if v and not x.startswith("f:"))
+            notes.append("site %s `%s` in %s is compiled with std and alloc off (features: %s%s)"
+                         % (k, t, f, ",".join(fs) or "none", ("; " + ",".join(other)) if other else ""))
+            # the same for a build this host can make (its own target_arch, a target-feature level it supports, guard off)
+            spec = spec_for(p, set(buildable_features()))
+            if spec is not None and spec not in sets:
+                sets.append(spec)
         if f in doc_files or (k == "KStd" and t in ok_std):
             continue
         env = brute(p, {"test": False, "doc": False})
@@ -274,7 +318,7 @@ def run(ctx):
         sets, notes = diagnose()
         for n in notes[:12]:
             ctx.obligation_failures.append("inventory: " + n)
-        extra_sets = [s for s in sets if not ({"std", "alloc", "default", "detect-features"} & set(s))][:4]
+        extra_sets = sets[:6]
     db = ctx.driver()
     names = ["default", "nosimd", "embedded", "lowmem"] if ctx.tier == "quick" else configs.CFG_ALL
     cases = na_cases(ctx.rng.fork("na"), ctx.tier)
